@@ -165,9 +165,9 @@ def implemented():
     return sorted(f[:-3].upper() for f in os.listdir(os.path.join(VERIF, 'rules')) if len(f) == 6 and f[0] == 'c' and f[1:3].isdigit() and f.endswith('.py'))
 
 
-def run_seeds(jobs=6, ids=None):
-    """every seeded change against every implemented property check"""
-    ms = [m for m in load_mutants() if m['id'].startswith('seeded/')]
+def run_seeds(jobs=6, ids=None, prefix='seeded/', tag='seeds'):
+    """every seeded change (or every neutral edit) against every implemented property check"""
+    ms = [m for m in load_mutants() if m['id'].startswith(prefix)]
     if ids:
         ms = [m for m in ms if any(i in m['id'] for i in ids)]
     props = implemented()
@@ -193,8 +193,8 @@ def run_seeds(jobs=6, ids=None):
         results = list(ex.map(work, ms))
     for r in results:
         fired = sorted({f['ob'] for f in r.get('fired', [])})
-        print('SEED %-14s %-18s fired=%s %s' % (r['id'], r['status'], ','.join(fired), r.get('detail', '')[:150]))
-    with open(os.path.join(VERIF, 'evidence', 'killmatrix-seeds.json'), 'w') as f:
+        print('%s %-44s %-18s fired=%s %s' % (tag.upper()[:-1], r['id'], r['status'], ','.join(fired), r.get('detail', '')[:150]))
+    with open(os.path.join(VERIF, 'evidence', 'killmatrix-%s.json' % tag), 'w') as f:
         json.dump(dict(results=results), f, indent=1)
     return results
 
@@ -206,8 +206,12 @@ if __name__ == '__main__':
     ap.add_argument('--ids', nargs='*')
     ap.add_argument('--jobs', type=int, default=4)
     ap.add_argument('--seeds', action='store_true')
+    ap.add_argument('--neutral', action='store_true')
     a = ap.parse_args()
     if a.seeds:
         run_seeds(a.jobs, a.ids)
+        sys.exit(0)
+    if a.neutral:
+        run_seeds(a.jobs, a.ids, prefix='neutral/', tag='neutrals')
         sys.exit(0)
     sys.exit(run(a.property, ids=a.ids, jobs=a.jobs))
